@@ -1,11 +1,22 @@
-import Srctools.Model.C01
+import Srctools.Proofs.C01
 import Srctools.Gen.Kvser
-import Srctools.Props.C02
 /-!
 # C01 — KeyValues1 serialise/parse round trip preserves the whole tree
-(first stage: the obligations on the current source; the theorems follow)
+
+Property theorems only.  Statements are about the executable model `C01.serialise` /
+`C01.parse` (Model/C01.lean: `Keyvalues._serialise`, `Keyvalues.parse`) over the shared tokenizer
+model `Tok.run`; they are proved for every tokenizer table satisfying the decidable predicates
+`Tok.escOK` (C02) and `C01.kvOK`, and for the writer configuration `fullCfg` (block names, leaf
+names and leaf values all written through `escape_text`).  `C01_gen_*` check on every run that the
+tables and the writer regenerated from the current source are of that form.
+
+Vocabulary (Proofs/C01.lean): `isWs s` — `s` consists of blanks and tabs; `okKV po t` — every name
+of `t` is free of CR/LF unless `newline_keys`, every value free of CR/LF unless `newline_values`
+(the default) — computed by `C01.okKV`; `toksKV l t` — the token list (kind, value, line) of a
+node starting on line `l`, a function of the tree alone.
 -/
 namespace C01
+open Tok
 
 /-- OBLIGATION on the current source: the text templates of `_serialise`/`serialise` are the ones
 the model `serKV` is written for. -/
@@ -22,7 +33,163 @@ theorem C01_gen_shape : Gen.Kvser.shape = [
     ("close_brace_plain", ["}\n"])] := by decide
 
 /-- OBLIGATION on the current source: every name and value is written through `escape_text`. -/
-theorem C01_gen_cfg :
-    Gen.Kvser.cfg = { escBlockName := true, escLeafName := true, escLeafValue := true } := by decide
+theorem C01_gen_cfg : Gen.Kvser.cfg = fullCfg := by decide
+
+/-- OBLIGATION on the current source: blanks and LF are not operators, the braces are. -/
+theorem C01_gen_tables : kvOK Gen.Tok.tables = true := by decide
+
+/-- **The token stream of serialised text is a function of the tree alone**: whatever the
+(whitespace) `indent` / `start_indent` and `indent_braces`, tokenizing `serialise(t)` with escapes
+enabled gives exactly `toksKV 1 t` followed by EOF — same kinds, same values, same line numbers —
+and no error. -/
+theorem C01_tokens (T : Tables) (hE : escOK T = true) (hK : kvOK T = true) (o : Opts)
+    (ho : o.allowEscapes = true) (fold : Char → List Char) (so : SerOpts) (hind : isWs so.indent)
+    (hst : isWs so.startIndent) (t : KV) :
+    run T o fold (serialise T fullCfg so t)
+      = { toks := toksKV 1 t ++ [⟨0, [], 1 + linesKV t⟩], err := none } :=
+  run_serKV hE (kvFacts hK) o ho fold so hind t so.startIndent hst
+
+/-- The same for `Keyvalues.root(*ts).serialise(...)`. -/
+theorem C01_tokens_root (T : Tables) (hE : escOK T = true) (hK : kvOK T = true) (o : Opts)
+    (ho : o.allowEscapes = true) (fold : Char → List Char) (so : SerOpts) (hind : isWs so.indent)
+    (ts : List KV) :
+    run T o fold (serialiseRoot T fullCfg so ts)
+      = { toks := toksList 1 ts ++ [⟨0, [], 1 + linesList ts⟩], err := none } :=
+  run_serList hE (kvFacts hK) o ho fold so hind ts [] isWs_nil
+
+/-- **Independence of the indentation options**: two serialisations of the same tree under any two
+whitespace option sets have the same token stream (including NEWLINE tokens and line numbers), so
+they differ in blanks and tabs only. -/
+theorem C01_ws_indep (T : Tables) (hE : escOK T = true) (hK : kvOK T = true) (o : Opts)
+    (ho : o.allowEscapes = true) (fold : Char → List Char) (so₁ so₂ : SerOpts)
+    (h₁ : isWs so₁.indent) (h₁' : isWs so₁.startIndent) (h₂ : isWs so₂.indent)
+    (h₂' : isWs so₂.startIndent) (t : KV) :
+    run T o fold (serialise T fullCfg so₁ t) = run T o fold (serialise T fullCfg so₂ t) := by
+  rw [C01_tokens T hE hK o ho fold so₁ h₁ h₁', C01_tokens T hE hK o ho fold so₂ h₂ h₂']
+
+/-- **Round trip, one keyvalue.** For every tree whose names/values the parser options admit
+(`okKV`: by default, names without CR/LF and any values), every whitespace `indent` and
+`start_indent`, both `indent_braces`, any flag environment, `single_line` on or off:
+parsing the serialised text yields a root with exactly that tree — same shape, child order, names
+and values. -/
+theorem C01_roundtrip (T : Tables) (hE : escOK T = true) (hK : kvOK T = true) (po : ParseOpts)
+    (hesc : po.allowEscapes = true) (hsb : po.singleBlock = false) (fold : Char → List Char)
+    (so : SerOpts) (hind : isWs so.indent) (hst : isWs so.startIndent) (t : KV)
+    (ht : okKV po t = true) :
+    parse T po fold (serialise T fullCfg so t) = .root [t] := by
+  unfold parse parseRun
+  rw [C01_tokens T hE hK (tokOpts po) (by simpa [tokOpts] using hesc) fold so hind hst]
+  show parseToks po fold initState (toksKV 1 t ++ [⟨0, [], 1 + linesKV t⟩]) none = _
+  unfold initState
+  rw [parse_kv po fold t ht 1 _ [] (Or.inl hsb) false]
+  simp [parseToks, step, stepTop, kEof, finish]
+
+/-- **Round trip, root.** `parse(Keyvalues.root(*ts).serialise(...))` has exactly the children `ts`
+(any number of top-level keyvalues, including none). -/
+theorem C01_roundtrip_root (T : Tables) (hE : escOK T = true) (hK : kvOK T = true) (po : ParseOpts)
+    (hesc : po.allowEscapes = true) (hsb : po.singleBlock = false) (fold : Char → List Char)
+    (so : SerOpts) (hind : isWs so.indent) (ts : List KV) (ht : okList po ts = true) :
+    parse T po fold (serialiseRoot T fullCfg so ts) = .root ts := by
+  unfold parse parseRun
+  rw [C01_tokens_root T hE hK (tokOpts po) (by simpa [tokOpts] using hesc) fold so hind]
+  show parseToks po fold initState (toksList 1 ts ++ [⟨0, [], 1 + linesList ts⟩]) none = _
+  unfold initState
+  rw [parse_list po fold ts ht 1 _ [] (Or.inl hsb) false]
+  simp [parseToks, step, stepTop, kEof, finish]
+
+/-- **Round trip with `single_block=True`**: the serialised keyvalue itself is returned. -/
+theorem C01_roundtrip_single_block (T : Tables) (hE : escOK T = true) (hK : kvOK T = true)
+    (po : ParseOpts) (hesc : po.allowEscapes = true) (hsb : po.singleBlock = true)
+    (fold : Char → List Char) (so : SerOpts) (hind : isWs so.indent) (hst : isWs so.startIndent)
+    (t : KV) (ht : okKV po t = true) :
+    parse T po fold (serialise T fullCfg so t) = .single t := by
+  unfold parse parseRun
+  rw [C01_tokens T hE hK (tokOpts po) (by simpa [tokOpts] using hesc) fold so hind hst]
+  show parseToks po fold initState (toksKV 1 t ++ [⟨0, [], 1 + linesKV t⟩]) none = _
+  unfold initState
+  match t with
+  | .leaf n v =>
+    simp only [okKV, Bool.and_eq_true] at ht
+    simp [toksKV, parseToks, step, stepTop, kEof, kBraceOpen, kNewline, kString, kPropFlag,
+      keyOk_step ht.1, valOk_step ht.2, topIsRoot, hsb]
+  | .block n cs =>
+    simp only [okKV, Bool.and_eq_true] at ht
+    simp only [toksKV, List.cons_append, List.nil_append, List.append_assoc]
+    simp [parseToks, step, stepTop, kEof, kBraceOpen, kNewline, kString, kPropFlag,
+      keyOk_step ht.1, addKid]
+    rw [parse_list po fold cs ht.2 3 ⟨.named n, []⟩ [⟨.root, []⟩] (Or.inr (by simp)) false]
+    simp [parseToks, step, stepTop, kEof, kBraceOpen, kNewline, kString, kBraceClose, hsb]
+
+/-- The three round-trip theorems at the tables and writer of the **current source**, default
+`Keyvalues.parse` options (so `okKV {} t` reads: no name of `t` contains CR or LF). -/
+theorem C01_roundtrip_current (fold : Char → List Char) (so : SerOpts) (hind : isWs so.indent)
+    (hst : isWs so.startIndent) (t : KV) (ht : okKV {} t = true) :
+    parse Gen.Tok.tables {} fold (serialise Gen.Tok.tables Gen.Kvser.cfg so t) = .root [t] := by
+  rw [C01_gen_cfg]
+  exact C01_roundtrip _ C02_gen_ok C01_gen_tables {} rfl rfl fold so hind hst t ht
+
+theorem C01_roundtrip_root_current (fold : Char → List Char) (so : SerOpts) (hind : isWs so.indent)
+    (ts : List KV) (ht : okList {} ts = true) :
+    parse Gen.Tok.tables {} fold (serialiseRoot Gen.Tok.tables Gen.Kvser.cfg so ts) = .root ts := by
+  rw [C01_gen_cfg]
+  exact C01_roundtrip_root _ C02_gen_ok C01_gen_tables {} rfl rfl fold so hind ts ht
+
+/-- the error of a parse result, if it is one (decidable observation of `PResult`) -/
+def errOf : PResult → Option (PErr × Option Nat)
+  | .err e l => some (e, l)
+  | _ => none
+
+/-- the writer as it was before the fix: block names raw -/
+def unescapedBlockCfg : SerCfg := { escBlockName := false, escLeafName := true, escLeafValue := true }
+
+/-- **Escaping block names is necessary** (the defect fixed in `/repo`): with the writer that
+leaves block names raw, the block named `a"b` serialises (default options) to text whose parse ends
+in "Unterminated string!" on line 4. -/
+theorem C01_block_names_escaped_needed :
+    errOf (parse Gen.Tok.tables {} (fun c => [c])
+      (serialise Gen.Tok.tables unescapedBlockCfg {} (.block ['a', '"', 'b'] [])))
+      = some (.tok .untermString, some 4) := by decide +kernel
+
+/-- … hence the round-trip law is false of that writer. -/
+theorem C01_unescaped_not_roundtrip :
+    ¬ ∀ t : KV, okKV {} t = true →
+      parse Gen.Tok.tables {} (fun c => [c]) (serialise Gen.Tok.tables unescapedBlockCfg {} t) = .root [t] := by
+  intro h
+  have h1 := h (.block ['a', '"', 'b'] []) (by decide +kernel)
+  have h2 := C01_block_names_escaped_needed
+  rw [h1] at h2
+  simp [errOf] at h2
+
+/-- A backslash in a raw block name is silently *altered* instead: `a\tb` (backslash, t) comes back
+as `a<TAB>b`. -/
+theorem C01_unescaped_alters_name :
+    (match parse Gen.Tok.tables {} (fun c => [c])
+        (serialise Gen.Tok.tables unescapedBlockCfg {} (.block ['a', '\\', 't', 'b'] [])) with
+      | .root [.block n []] => some n
+      | _ => none) = some ['a', '\t', 'b'] := by decide +kernel
+
+/-! Non-vacuity: the hypotheses are satisfiable and the statements are about non-trivial data. -/
+
+def C01_sample : KV :=
+  .block ['a', '"', 'b', '\\', '{'] [
+    .leaf ['k', '}', '['] ['v', '\n', '"', '\r', '\t', ']'],
+    .block [] [],
+    .block ['k', '}', '['] [.leaf [] [], .leaf [] ['x']]]
+
+example : okKV {} C01_sample = true := by decide +kernel
+example : isWs [' ', '\t'] := by intro c hc; simp at hc; rcases hc with rfl | rfl <;> simp
+
+example : parse Gen.Tok.tables {} (fun c => [c])
+    (serialise Gen.Tok.tables Gen.Kvser.cfg { indent := [' ', '\t'], indentBraces := false, startIndent := ['\t'] }
+      C01_sample) matches .root [_] := by decide +kernel
+
+example : (run Gen.Tok.tables (tokOpts {}) (fun c => [c])
+    (serialise Gen.Tok.tables Gen.Kvser.cfg {} C01_sample)).toks.length = 28 := by decide +kernel
+
+/-- with `newline_keys=False` a name containing LF does *not* round trip (the hypothesis `okKV` is
+needed): -/
+example : errOf (parse Gen.Tok.tables {} (fun c => [c])
+    (serialise Gen.Tok.tables Gen.Kvser.cfg {} (.leaf ['a', '\n'] []))) = some (.newlineInKey, some 1) := by
+  decide +kernel
 
 end C01
